@@ -321,6 +321,13 @@ func (g *Gen) APL() []APLItem {
 			prefix = g.R.IntN(bits + 1)
 		}
 		addr := g.Bytes(bits / 8)
+		if fam == 2 && g.R.IntN(4) == 0 {
+			// an IPv6 prefix inside ::ffff:0:0/96 (IPv4-mapped) and others that Go's net.IP treats specially
+			copy(addr, []byte{0, 0, 0, 0, 0, 0, 0, 0, 0, 0, 0xff, 0xff})
+			if prefix < 96 {
+				prefix = 96 + g.R.IntN(33)
+			}
+		}
 		// mask to the prefix
 		for b := 0; b < len(addr); b++ {
 			switch {
